@@ -586,8 +586,13 @@ class PythonToIrCompiler:
             if ty is None:
                 self.error(node, "Undefined variable")
             else:
-                mem = self.emit(ir.Alloc(f"alloc_{name}", 8, 8))
-                addr = self.emit(ir.AddressOf(mem, f"addr_{name}"))
+                # The slot lives in the entry block, such that it is valid
+                # on every path on which the variable is used:
+                mem = ir.Alloc(f"alloc_{name}", 8, 8)
+                addr = ir.AddressOf(mem, f"addr_{name}")
+                entry_block = self.builder.function.entry
+                entry_block.insert_instruction(addr)
+                entry_block.insert_instruction(mem)
                 var = Var(addr, True, ty)
                 self.local_map[name] = var
         return var
